@@ -2,7 +2,8 @@
    (coq/gen/Gen_PanicSites.v, regenerated from /repo on every run).  No proofs here.
 
    Every generated entry (package, file, function, kind, count) must be matched by an audited entry with
-   the same key and an audited count >= the generated one; [panic_sites_accounted] computes that.  A new
+   the same key and an audited count >= the generated one, or belong to a file whose total of that kind does not
+   exceed the reviewed total (sites moved between functions of one file); [panic_sites_accounted] computes that.  A new
    panic-capable site in an unaudited function, a new kind of site in an audited function, or one more site
    of an audited kind than was reviewed makes it false, and the obligation C07 `panic_sites_accounted`
    (vm_compute) fails by name.  Removing sites never breaks it.
@@ -46,7 +47,6 @@ Definition audited : list audit := [
   (* ---------------------------------------------------------------- ast/modify.go *)
   A "ast" "modify.go" "Modify" "assert" 5 U "nc.(*Statements)/nb.(*Statements): none of the three callbacks (ModifyRegister, ExpandMacros, evalUnquoteCalls) replaces a *Statements; parameters use the checked form since f881ef4";
   A "ast" "modify.go" "Modify" "index" 14 U "indices range over len() of the slice just made with make(len) / map store / (fix 4ad1aa4) a comma-ok map lookup of the key that is stored on the next line: keys are node pointers, hashable";
-  A "ast" "modify.go" "Modify" "make" 6 U "make(len(existing slice)): bounded by the parsed tree";
   A "ast" "modify.go" "Modify" "panic" 1 U "key taken from node.Order is always in node.Pairs (parser/Modify insert both together)";
   A "ast" "priority_string.go" "Priority.String" "index" 2 FE "stringer: guarded by i >= len(_Priority_index)-1 test";
   A "ast" "priority_string.go" "Priority.String" "slice" 1 FE "stringer: offsets from the constant index table";
@@ -55,14 +55,13 @@ Definition audited : list audit := [
   A "eval" "eval.go" "GetFloatValue" "assert" 3 U "each assertion under case o.Type() of that very type";
   A "eval" "eval.go" "Int64Value" "assert" 2 U "each assertion under case o.Type() of that very type";
   A "eval" "eval.go" "State.applyExtension" "assert" 2 G "f.(Extension) after Type()==EXTENSION; arg.(Integer) after Type()==INTEGER: Arith.validate_loop";
-  A "eval" "eval.go" "State.applyExtension" "index" 7 G "args[l-1] after l>0; ArgTypes[i] after i < len(ArgTypes); args[i] with i from range args: Arith.apply_ext_validate";
+  A "eval" "eval.go" "State.applyExtension" "index" 5 G "args[l-1] after l>0; ArgTypes[i] after i < len(ArgTypes); args[i] with i from range args: Arith.apply_ext_validate";
   A "eval" "eval.go" "State.applyExtension" "slice" 1 G "args[:l-1] after l > 0";
   A "eval" "eval.go" "State.deleteMapEntry" "assert" 1 U "obj.(Map) after obj.Type()==MAP (only SmallMap/*BigMap have that type)";
   A "eval" "eval.go" "State.evalArrayInfixExpression" "slice" 1 U "leftVal[:len:len] full slice expression of its own length";
   A "eval" "eval.go" "State.evalAssignment" "assert" 2 U "Left.(*Identifier) under Value().Type()==IDENT, Left.(*Register) under REGISTER: only those node types carry these token types";
   A "eval" "eval.go" "State.evalBuiltin" "assert" 1 U "val.(Error) after rt == ERROR";
   A "eval" "eval.go" "State.evalBuiltin" "indexc" 3 U "Parameters[0] after argCheck (min 1 argument unless println, which tests minV > 0)";
-  A "eval" "eval.go" "State.evalDelete" "assert" 2 U "comma-ok since 9fa5a73 (del([1]) carried the [ token): no longer a site";
   A "eval" "eval.go" "State.evalExpressions" "assert" 1 U "evaluated.(Error) after Type()==ERROR";
   A "eval" "eval.go" "State.evalFloatInfixExpression" "div" 1 U "float64 division: no panic in Go (Inf/NaN)";
   A "eval" "eval.go" "State.evalForExpression" "assert" 3 U "condition.(*Register)/(Integer) under the matching Type() case; nextEval.(ReturnValue) under Type()==RETURN";
@@ -92,7 +91,6 @@ Definition audited : list audit := [
   A "eval" "eval.go" "State.extendFunctionEnv" "index" 4 U "args[len-1] after len(args) > 0; args[paramIdx] after len(args) == len(params)";
   A "eval" "eval.go" "State.extendFunctionEnv" "slice" 4 U "params[:n] with n = len-1 >= 0 (a variadic function has its .. parameter); args[:len-1] after len > 0; args[n:], args[:n] after len(args) >= n";
   A "eval" "eval.go" "ModifyRegister" "indexc" 1 U "Parameters[0] after len(Parameters) > 0 on the same && chain";
-  A "eval" "eval.go" "derefAll" "index" 1 U "objs[i] with i from range objs";
   A "eval" "eval.go" "evalArrayIndexExpression" "index" 1 G "Elements[idx] after 0 <= idx <= maxV: Arith.index_expr";
   A "eval" "eval.go" "evalMapIndexExpression" "assert" 1 U "assoc.(Map) after Type()==MAP at the only call site";
   A "eval" "eval_api.go" "State.Eval" "panic" 1 R "max depth guard: Guards.step GuardDepth";
@@ -122,9 +120,6 @@ Definition audited : list audit := [
   A "object" "interp.go" "CreateFunction" "indexc" 2 U "dotSplit[0], [1] after len(dotSplit) == 2; start-up only";
   A "object" "interp.go" "IsExtraFunction" "index" 1 U "map lookup";
   A "object" "interp.go" "Unwrap" "index" 1 U "res[i] with i from range objs, res made with len(objs)";
-  A "object" "interp.go" "Unwrap" "make" 1 U "make(len(objs))";
-  A "object" "interp.go" "initialIdentifiersCopy" "index" 1 U "map store";
-  A "object" "interp.go" "initialIdentifiersCopy" "make" 1 U "make(map, len)";
   A "object" "interp.go" "isConstantAndExtraIdentifier" "index" 1 U "map lookup";
   (* ---------------------------------------------------------------- object/memory.go *)
   A "object" "memory.go" "MakeObjectSlice" "make" 1 G "after MustBeOk(n): Arith.make_object_slice (n >= 0 at every call site: lengths, checked products, lg >= 0)";
@@ -140,23 +135,21 @@ Definition audited : list audit := [
   A "object" "object.go" "BigMap.Rest" "slice" 3 U "kv[1:] after len(kv) > 1";
   A "object" "object.go" "BigMap.Set" "index" 1 U "kv[i] with i found by BinarySearchFunc";
   A "object" "object.go" "BigMap.Unwrap" "index" 1 U "Go map store keyed by UnwrapHashable (basic value or string)";
-  A "object" "object.go" "BigMap.Unwrap" "make" 1 U "make(map, len)";
   A "object" "object.go" "BigMap.get" "index" 1 U "kv[i] with i found by BinarySearchFunc";
-  A "object" "object.go" "BigMap.Clone" "make" 1 U "make(len, cap of an existing slice)";
   A "object" "object.go" "Cmp" "assert" 22 OP "each under the switch on the (equal) types: C12 cmp_never_panics";
   A "object" "object.go" "Cmp" "index" 3 OP "m2Els[i], a2Els[i] after equal Len(): C12";
-  A "object" "object.go" "Cmp" "panic" 2 OP "REFERENCE/REGISTER dereferenced by Value() first; QUOTE/MACRO/RETURN: C12 (quote(1)==quote(2) repaired there)";
+  A "object" "object.go" "Cmp" "panic" 1 OP "REFERENCE/REGISTER dereferenced by Value() first; QUOTE/MACRO/RETURN: C12 (quote(1)==quote(2) repaired there)";
   A "object" "object.go" "Elements" "index" 2 U "res[i] with i from range, res made with that length";
-  A "object" "object.go" "Elements" "make" 2 U "make(len of an existing map)";
+  A "object" "object.go" "Elements" "make" 1 U "make(len of an existing map)";
   A "object" "object.go" "Elements" "slice" 1 U "smallKV[:len] with len <= MaxSmallMap";
   A "object" "object.go" "Error.Inspect" "indexc" 1 U "Stack[0] after len(Stack) == 1";
   A "object" "object.go" "Extension.Usage" "index" 2 U "ArgTypes[i-1] for i <= MinArgs <= len(ArgTypes) (checked by CreateFunction); ArgTypes[MinArgs] after len > MinArgs";
   A "object" "object.go" "First" "indexc" 2 U "after len == 0 tests";
   A "object" "object.go" "First" "slice" 1 U "[]rune(s)[:1] after s != """"";
-  A "object" "object.go" "Function.lambdaPrint" "indexc" 2 U "Statements[0] after len(Statements) != 1 short-circuit";
+  A "object" "object.go" "Function.lambdaPrint" "indexc" 1 U "Statements[0] after len(Statements) != 1 short-circuit";
   A "object" "object.go" "Hashable" "assert" 1 U "o.(Float) under case FLOAT";
   A "object" "object.go" "Identical" "assert" 8 U "(fix 865033d added a.(Function) / b.(Function) under case FUNC: only Function has type FUNC) a.(T) / b.(T) under case a.Type() of that very type after a.Type()==b.Type(); Type() is faithful to the Go type (REFERENCE and REGISTER are types of their own; only SmallMap/*BigMap have type MAP)";
-  A "object" "object.go" "Identical" "index" 6 U "ae[i]/be[i] and am[i]/bm[i] with i from range over ae / am after len(ae)==len(be), len(am)==len(bm)";
+  A "object" "object.go" "Identical" "index" 3 U "ae[i]/be[i] and am[i]/bm[i] with i from range over ae / am after len(ae)==len(be), len(am)==len(bm)";
   A "object" "object.go" "Hashable" "slice" 2 U "smallArr[:len], smallKV[:len] with len <= capacity by construction";
   A "object" "object.go" "lambdaBodyNeedsBraces" "index" 1 U "map lookup ast.Precedences[type]";
   A "object" "object.go" "MakePair" "indexc" 1 U "constant index into a fixed array";
@@ -189,23 +182,19 @@ Definition audited : list audit := [
   A "object" "object.go" "SmallMap.Unwrap" "slice" 1 U "smallKV[:len]";
   A "object" "object.go" "SmallMap.get" "index" 2 U "i < len";
   A "object" "object.go" "SmallMap.mapElements" "slice" 1 U "smallKV[:len]";
-  A "object" "object.go" "UnwrapStringKeys" "index" 2 U "Go map stores with string keys";
   A "object" "object.go" "UnwrapStringKeys" "make" 1 U "make(map, len)";
   A "object" "object.go" "Value" "panic" 1 U "Too many references: makeRef stores the original reference, never a reference to a reference, so chains have length 1";
   (* ---------------------------------------------------------------- object/state.go *)
-  A "object" "state.go" "Environment.BaseInfo" "make" 4 U "make with lengths of the token tables";
   A "object" "state.go" "Environment.Delete" "index" 1 U "map lookup";
-  A "object" "state.go" "Environment.Get" "index" 1 U "map lookup";
   A "object" "state.go" "Environment.getStored" "index" 1 U "map lookup";
   A "object" "state.go" "Environment.Info" "index" 1 U "allKeys[e.depth-1] with allKeys = make(depth of the starting env); NewFunctionEnvironment sets depth = outer.depth+1, so depths strictly decrease along outer";
-  A "object" "state.go" "Environment.Info" "make" 2 U "make(depth), make(len(store))";
+  A "object" "state.go" "Environment.Info" "make" 1 U "make(depth), make(len(store))";
   A "object" "state.go" "Environment.IsRef" "index" 1 U "map lookup";
   A "object" "state.go" "Environment.MakeRegister" "index" 1 OP "registers[numReg] after HasRegisters(): C05";
   A "object" "state.go" "Environment.MakeRegister" "panic" 1 OP "No more registers: C05 register-file balance";
   A "object" "state.go" "Environment.ReleaseRegister" "panic" 1 OP "non last register: C05 register-file balance";
   A "object" "state.go" "Environment.SaveGlobals" "assert" 1 U "v.(Function) after Type()==FUNC";
   A "object" "state.go" "Environment.SaveGlobals" "index" 2 U "map lookups e.store[k], e.store[f.Name.Literal()] (a missing key yields the zero value)";
-  A "object" "state.go" "Environment.SaveGlobals" "make" 1 U "make(0, len(store))";
   A "object" "state.go" "Environment.SetNoChecks" "index" 2 U "map lookup / store";
   A "object" "state.go" "Environment.create" "index" 1 U "map store";
   A "object" "state.go" "Environment.makeRef" "index" 3 U "map lookups / store";
@@ -240,8 +229,32 @@ Definition key_eqb (s : string * string * string * string * Z) (a : audit) : boo
       && String.eqb kind (a_kind a) && Z.leb n (a_count a)
   end.
 
+(* Second chance for an entry that has no audited entry of its own function: the sites of that kind reviewed in that FILE have
+   only moved (a helper was extracted, a function renamed or split, two merged) when the file has, in total, no more sites of
+   the kind than were reviewed.  An equivalent rewrite inside one file then keeps the obligation; one more site of a kind than
+   the review saw in the file still breaks it.  (Sites are counted after the translator has dropped the forms that cannot
+   panic, see gen/gen_panicsites.go; the audited counts are kept equal to the generated ones, so there is no slack.) *)
+Definition gen_file_kind_total (pkg file kind : string) : Z :=
+  fold_left (fun acc s => match s with
+    | (p, f, _, k, n) => if String.eqb p pkg && String.eqb f file && String.eqb k kind then (acc + n)%Z else acc end) panic_sites 0%Z.
+Definition aud_file_kind_total (pkg file kind : string) : Z :=
+  fold_left (fun acc a =>
+    if String.eqb (a_pkg a) pkg && String.eqb (a_file a) file && String.eqb (a_kind a) kind then (acc + a_count a)%Z else acc) audited 0%Z.
+Definition moved_within_file (s : string * string * string * string * Z) : bool :=
+  match s with
+  | (pkg, file, _, kind, _) => Z.leb (gen_file_kind_total pkg file kind) (aud_file_kind_total pkg file kind)
+  end.
+
 Definition site_covered (s : string * string * string * string * Z) : bool :=
-  existsb (key_eqb s) audited.
+  existsb (key_eqb s) audited || moved_within_file s.
+
+(* no slack: the review counts exactly the sites the translator finds on the audited tree *)
+Definition audit_slack : list (string * string * string * Z * Z) :=
+  flat_map (fun a =>
+    let g := fold_left (fun acc s => match s with
+      | (p, f, fn, k, n) => if String.eqb p (a_pkg a) && String.eqb f (a_file a) && String.eqb fn (a_fn a) && String.eqb k (a_kind a)
+                            then (acc + n)%Z else acc end) panic_sites 0%Z in
+    if Z.eqb g (a_count a) then [] else [(a_file a, a_fn a, a_kind a, a_count a, g)]) audited.
 
 Definition unaccounted_sites : list (string * string * string * string * Z) :=
   filter (fun s => negb (site_covered s)) panic_sites.
